@@ -30,6 +30,10 @@ pub enum Cmd {
 }
 
 pub fn render(c: &Cmd) -> String {
+    render_db(c, DB)
+}
+
+pub fn render_db(c: &Cmd, db_name: &str) -> String {
     match c {
         Cmd::Key { word, key } => match word.as_str() {
             "set" => format!("set {} attacker-value", key),
@@ -38,14 +42,14 @@ pub fn render(c: &Cmd) -> String {
             w => format!("{} {}", w, key),
         },
         Cmd::Keys { word, pattern } => format!("{} {}", word, pattern),
-        Cmd::Resolve { key, version } => format!("resolve 77 {} {} {} attacker-value", DB, key, version),
+        Cmd::Resolve { key, version } => format!("resolve 77 {} {} {} attacker-value", db_name, key, version),
         Cmd::Replicate { word, key } => match word.as_str() {
-            "replicate" => format!("replicate {} {} 5 attacker-value", DB, key),
-            "replicate-increment" => format!("replicate-increment {} {} 2", DB, key),
-            _ => format!("replicate-remove {} {}", DB, key),
+            "replicate" => format!("replicate {} {} 5 attacker-value", db_name, key),
+            "replicate-increment" => format!("replicate-increment {} {} 2", db_name, key),
+            _ => format!("replicate-remove {} {}", db_name, key),
         },
         Cmd::Raw { line } => line.clone(),
-        Cmd::Rp { inner } => format!("rp 5 {}", render(inner)),
+        Cmd::Rp { inner } => format!("rp 5 {}", render_db(inner, db_name)),
         Cmd::AdminTouch { .. } => String::new(),
     }
 }
@@ -164,7 +168,117 @@ pub fn build_server(dir: &str, variant: usize, case: &Case) -> Server {
 }
 
 fn secure_dump(node: &Node) -> BTreeMap<String, (String, i32, bool)> {
-    node.dump().remove(DB).unwrap_or_default().into_iter().filter(|(k, _)| k.starts_with("$$")).collect()
+    secure_dump_db(node, DB)
+}
+
+fn secure_dump_db(node: &Node, db: &str) -> BTreeMap<String, (String, i32, bool)> {
+    node.dump().remove(db).unwrap_or_default().into_iter().filter(|(k, _)| k.starts_with("$$")).collect()
+}
+
+// ------------------------------------------------------------------ the same pairs over HTTP
+// Every HTTP request is a session of its own, served by one of four worker threads that also serve the
+// administrators' requests: the attacker's requests are interleaved with administrator requests on the same server.
+
+pub struct HttpServer {
+    pub node: Node,
+    pub port: u16,
+}
+
+pub struct HttpPair {
+    pub servers: [HttpServer; 2],
+    pub counter: std::cell::Cell<u64>,
+}
+
+pub fn start_http_pair(ctx: &Ctx) -> HttpPair {
+    let mk = |v: usize| {
+        let dir = ctx.scratch.join(format!("http-{}", v)).to_str().unwrap().to_string();
+        std::fs::create_dir_all(&dir).unwrap();
+        let mut node = Node::boot_single(&dir);
+        crate::transport::run_services_in_background(&mut node);
+        let port = crate::transport::start_http(node.dbs.clone());
+        HttpServer { node, port }
+    };
+    HttpPair { servers: [mk(0), mk(1)], counter: std::cell::Cell::new(0) }
+}
+
+pub fn run_http_case(pair: &HttpPair, case: &Case) -> Outcome {
+    let n = pair.counter.get();
+    pair.counter.set(n + 1);
+    let db = format!("h{}", n);
+    for (v, srv) in pair.servers.iter().enumerate() {
+        // set-up by an in-process administrator session that disconnects afterwards
+        let mut admin = Session::new();
+        admin.auth(&srv.node);
+        admin.send(&srv.node, &format!("create-db {} {}", db, DBTOK));
+        admin.send(&srv.node, &format!("use-db {} {}", db, DBTOK));
+        for l in ["set secret plainvalue", "set a 1", "set $secret single-dollar"] {
+            admin.send(&srv.node, l);
+        }
+        for (k, val) in secrets(v) {
+            if let Some(val) = val {
+                admin.send(&srv.node, &format!("set {} {}", k, val));
+            }
+        }
+        admin.send(&srv.node, "create-user bob bobtok");
+        if !case.perms.is_empty() {
+            admin.send(&srv.node, &format!("set-permissions bob {}", case.perms));
+        }
+        admin.send(&srv.node, "unwatch-all");
+        admin.client.left(&srv.node.dbs);
+    }
+    let login = if case.session == "user" { format!("use-db {} bob bobtok", db) } else { format!("use-db {} {}", db, DBTOK) };
+    let mut out = Outcome::ok(false);
+    out.classes.push("over-http");
+    let mut admin_requests = 0u64;
+    let mut attacker_after_admin = false;
+    for (i, c) in case.cmds.iter().enumerate() {
+        if let Cmd::AdminTouch { n } = c {
+            for (v, srv) in pair.servers.iter().enumerate() {
+                let sv = if v == 0 { format!("rotated-{}-alpha", n) } else { format!("rotated-{}-omega-x", n) };
+                // more requests than the server has workers: each worker has served an administrator afterwards
+                for _ in 0..6 {
+                    let body = format!("auth {} {}; use-db {} {}; set $$secret {}; set shared s{}", crate::node::USER, crate::node::PWD, db, DBTOK, sv, n);
+                    if let Err(e) = crate::transport::http_post(srv.port, &body) {
+                        eprintln!("C08 http engine: administrator request failed: {}", e);
+                        return out;
+                    }
+                    admin_requests += 1;
+                }
+            }
+            continue;
+        }
+        let line = render_db(c, &db);
+        let body = format!("{}; {}", login, line);
+        let mut replies = vec![];
+        for (v, srv) in pair.servers.iter().enumerate() {
+            let before = secure_dump_db(&srv.node, &db);
+            let reply = match crate::transport::http_post(srv.port, &body) {
+                Ok((status, text)) => format!("{} | {}", status, text),
+                Err(e) => format!("ERR {}", e.split(':').next().unwrap_or("")),
+            };
+            let after = secure_dump_db(&srv.node, &db);
+            let word = line.split(' ').next().unwrap_or("").to_string();
+            let word = if word == "rp" { format!("rp+{}", line.split(' ').nth(2).unwrap_or("")) } else { word };
+            if after != before {
+                let changed: Vec<String> = after.iter().filter(|(k, val)| before.get(*k) != Some(val)).map(|(k, _)| k.clone()).chain(before.keys().filter(|k| !after.contains_key(*k)).cloned()).collect();
+                out.fail = Some((format!("C08|integrity-over-http|{}", word), format!("step {}: the non-admin ({}) HTTP request {:?} changed secure keys {:?} on server variant {} ({} administrator requests were served before)", i, case.session, body, changed, v, admin_requests)));
+                return out;
+            }
+            replies.push((word, reply));
+        }
+        if admin_requests > 0 {
+            attacker_after_admin = true;
+        }
+        if replies[0].1 != replies[1].1 {
+            out.fail = Some((format!("C08|leak-over-http|{}", replies[0].0), format!("step {}: the non-admin ({}) HTTP request {:?} is answered differently by two servers that differ only in secret contents ({} administrator requests were served before):\n  A: {}\n  B: {}", i, case.session, body, admin_requests, replies[0].1, replies[1].1)));
+            return out;
+        }
+    }
+    out.nontrivial = attacker_after_admin;
+    if attacker_after_admin {
+        out.classes.push("non-admin-http-request-after-administrator-requests");
+    }
+    out
 }
 
 /// runs the attacker's sequence; returns (transcript, integrity failure)
@@ -310,6 +424,16 @@ pub fn run(ctx: &Ctx, rep: &mut Report) {
     if rep.failures.is_empty() {
         enumerate(ctx, rep, "all-single-commands", cases.into_iter(), |c| run_case(ctx, c));
     }
+    if rep.failures.is_empty() {
+        // the same pairs over the real HTTP front end, administrator requests first
+        let pair = start_http_pair(ctx);
+        let n = ctx.amount(1500, 60_000);
+        let strat = case_strategy().prop_map(|mut c| {
+            c.cmds.insert(0, Cmd::AdminTouch { n: 0 });
+            c
+        });
+        explore(ctx, rep, "pairs-over-http", n, strat, |c| run_http_case(&pair, c));
+    }
     if ctx.worker == 0 && rep.failures.is_empty() {
         enumerate(ctx, rep, "token-guard", std::iter::once(0u8), |_| token_guard(ctx));
     }
@@ -319,6 +443,10 @@ pub fn replay(ctx: &Ctx, engine: &str, case: &J) -> Result<Option<(String, Strin
     crate::interpose::virtual_clock(true);
     if engine == "token-guard" {
         return Ok(token_guard(ctx).fail);
+    }
+    if engine == "pairs-over-http" {
+        let pair = start_http_pair(ctx);
+        return replay_guarded::<Case>(ctx, case, |c| run_http_case(&pair, c));
     }
     replay_guarded::<Case>(ctx, case, |c| run_case(ctx, c))
 }
